@@ -13,6 +13,7 @@ import (
 	"verif/checks/c10"
 	"verif/checks/c11"
 	"verif/checks/c12"
+	"verif/checks/c13"
 	"verif/checks/c15"
 	"verif/checks/c16"
 	"verif/checks/c17"
@@ -22,6 +23,7 @@ import (
 )
 
 func init() {
+	registry["C13"] = c13.Run
 	registry["C20"] = c20.Run
 	registry["C17"] = c17.Run
 	registry["C16"] = c16.Run
